@@ -996,6 +996,123 @@ Proof.
   - intros t Ht. rewrite nth_error_firstn' by lia. apply nth_error_skipn'.
 Qed.
 
+(* ------------------------------------------------------------------ the seeding segment and length limits *)
+
+Lemma fold_append_lim_none {A} (l : list A) : forall acc,
+  fold_left (append_lim None) l acc = acc ++ l.
+Proof.
+  induction l as [|x l IH]; intros acc; cbn [fold_left].
+  - now rewrite app_nil_r.
+  - rewrite IH. unfold append_lim. now rewrite <- app_assoc.
+Qed.
+
+Lemma fold_append_lim_some {A} m (l : list A) : forall acc,
+  fold_left (append_lim (Some m)) l acc = acc ++ firstn (m - length acc) l.
+Proof.
+  induction l as [|x l IH]; intros acc; cbn [fold_left].
+  - now rewrite firstn_nil, app_nil_r.
+  - rewrite IH. unfold append_lim. destruct (Nat.ltb_spec (length acc) m) as [Hlt|Hge].
+    + rewrite app_length. cbn [length].
+      replace (m - length acc) with (S (m - (length acc + 1))) by lia.
+      cbn [firstn]. now rewrite <- app_assoc.
+    + replace (m - length acc) with 0 by lia. reflexivity.
+Qed.
+
+(* the container keeps the first [maxlen] frames of the sub-path *)
+Theorem wf_seed_firstn {A} pmaxlen sg (l : list A) :
+  wf_seed pmaxlen sg l =
+  match pmaxlen with None => seg_frames sg l | Some m => firstn m (seg_frames sg l) end.
+Proof.
+  unfold wf_seed. destruct pmaxlen as [m|].
+  - rewrite fold_append_lim_some. cbn. now rewrite Nat.sub_0_r.
+  - now rewrite fold_append_lim_none.
+Qed.
+
+(* path.maxlen is None or at least the number of frames of the sub-path (in particular
+   when len(path) <= path.maxlen): the seed is the whole sub-path, entry .. exit inclusive *)
+Theorem wf_seed_whole {A} pmaxlen (l : list A) s e n :
+  e = s + n + 1 -> e < length l ->
+  (pmaxlen = None \/ exists m, pmaxlen = Some m /\ n + 2 <= m) ->
+  wf_seed pmaxlen (s, e, n) l = seg_frames (s, e, n) l.
+Proof.
+  intros He HL Hm. rewrite wf_seed_firstn. destruct Hm as [->|(m & -> & Hm)]; [reflexivity|].
+  apply firstn_all2. destruct (seg_frames_spec l s e n He HL) as [Hlen _]. lia.
+Qed.
+
+(* a container limit below n + 2 (whatever its origin) returns a strict prefix of the
+   sub-path: m frames entry, entry+1, ... and NOT the exit frame *)
+Theorem wf_seed_truncated {A} m (l : list A) s e n :
+  e = s + n + 1 -> e < length l -> m < n + 2 ->
+  length (wf_seed (Some m) (s, e, n) l) = m /\
+  (forall t, t < m -> nth_error (wf_seed (Some m) (s, e, n) l) t = nth_error l (s + t)) /\
+  wf_seed (Some m) (s, e, n) l <> seg_frames (s, e, n) l.
+Proof.
+  intros He HL Hm. rewrite wf_seed_firstn.
+  destruct (seg_frames_spec l s e n He HL) as [Hlen Hnth].
+  assert (Hl : length (firstn m (seg_frames (s, e, n) l)) = m) by (rewrite firstn_length; lia).
+  split; [exact Hl|]. split.
+  - intros t Ht. rewrite nth_error_firstn' by exact Ht. apply Hnth. lia.
+  - intros Heq. rewrite Heq in Hl. lia.
+Qed.
+
+(* return_seg=True: the returned segment is exactly one valid sub-path with its two end
+   points — frame t of the segment IS frame s + t of the path — whenever the path respects
+   its own limit (len(path) <= path.maxlen or path.maxlen is None).  No other length limit
+   enters. *)
+Theorem wf_pick_seed_exact {A} left right ords (frames : list A) pmaxlen u sg seed :
+  length frames = length ords ->
+  (pmaxlen = None \/ exists m, pmaxlen = Some m /\ length ords <= m) ->
+  wf_pick_seed left right ords frames pmaxlen u = Some (sg, seed) ->
+  let '(s, e, n) := sg in
+  valid_seg left right ords s e n /\ wf_pick left right ords u = Some (s, e, n) /\
+  length seed = n + 2 /\
+  forall t, t <= n + 1 -> nth_error seed t = nth_error frames (s + t).
+Proof.
+  intros HLf Hm H. unfold wf_pick_seed in H.
+  destruct (wf_pick left right ords u) as [[[s e] n]|] eqn:Hp; [|discriminate].
+  injection H as <- <-. pose proof (wf_pick_valid _ _ _ _ _ _ _ Hp) as Hv.
+  pose proof (valid_seg_bounds _ _ _ _ _ _ Hv) as Hb.
+  assert (He : e = s + n + 1) by (destruct Hv as (He & _); exact He).
+  assert (HL : e < length frames) by (rewrite HLf; lia).
+  rewrite wf_seed_whole; [| exact He | exact HL |].
+  - split; [exact Hv|]. split; [reflexivity|]. exact (seg_frames_spec frames s e n He HL).
+  - destruct Hm as [->|(m & -> & Hm)]; [left; reflexivity|right; exists m; split; [reflexivity|lia]].
+Qed.
+
+(* ------------------------------------------------------------------ valid [0-] paths *)
+
+(* A valid [0-] path.  Without lambda_minus_one ([lm1] = None) the ensemble is
+   (-inf, lambda_0, lambda_0) with start condition R: first and last frame at or right of
+   lambda_0, everything in between not right of it.  With lambda_minus_one = l (ANY number
+   below lambda_0, 0 included) the ensemble is (l, (l + lambda_0)/2, lambda_0) with start
+   condition L or R: each end is at or left of l or at or right of lambda_0 (all four
+   combinations L->L, L->R, R->L, R->R), the frames in between are inside [l, lambda_0]
+   (the engine stops at the first frame < l or > lambda_0).  At least one frame in between. *)
+Definition minus_path (lm1 : option Z) (lam0 : Z) (ords : list Z) : Prop :=
+  exists first mid lastv, ords = first :: mid ++ [lastv] /\ mid <> [] /\
+    match lm1 with
+    | None => (lam0 <= first /\ lam0 <= lastv /\ Forall (fun x => x <= lam0) mid)%Z
+    | Some l => ((first <= l \/ lam0 <= first) /\ (lastv <= l \/ lam0 <= lastv) /\
+                 Forall (fun x => l <= x <= lam0) mid)%Z
+    end.
+
+(* ... has the weight vector (1,), whether or not it ever reaches lambda_0 *)
+Theorem cv_vector_minus_valid ords lam0 irest mvs lm1 cap :
+  minus_path lm1 lam0 ords ->
+  calc_cv_vector ords (lam0 :: irest) mvs lm1 cap true = Some [1%Z].
+Proof.
+  intros (first & mid & lastv & -> & Hne & H). unfold calc_cv_vector. cbv beta iota zeta.
+  destruct (list_max_spec first (mid ++ [lastv])) as [_ Hub].
+  destruct lm1 as [l|].
+  - destruct H as (_ & _ & Hmid). destruct mid as [|m0 mid']; [congruence|].
+    inversion Hmid as [|? ? Hm0 _]; subst.
+    assert (Hle : (m0 <= list_max first ((m0 :: mid') ++ [lastv]))%Z) by (apply Hub; cbn; auto).
+    destruct (Z.leb_spec l (list_max first ((m0 :: mid') ++ [lastv]))) as [_|Hlt]; [reflexivity|lia].
+  - destruct H as (Hf & _ & _).
+    assert (Hle : (first <= list_max first (mid ++ [lastv]))%Z) by (apply Hub; cbn; auto).
+    destruct (Z.leb_spec lam0 (list_max first (mid ++ [lastv]))) as [_|Hlt]; [reflexivity|lia].
+Qed.
+
 (* ------------------------------------------------------------------ high-acceptance swap ratio *)
 
 Theorem high_acc_ratio_def (c1o c2o c1n c2n : Z) :
